@@ -12,27 +12,80 @@ import fam_emitast
 ID = "C02"
 COQ_PROP = "C02"
 FAMILIES = [(fam_parseast, 2500, 30000), (fam_emitast, 2500, 30000)]
-TECHNIQUE = ("Coq proof of the AST-level codec parse_class (emit_class ir) under an explicit docstring-agreement hypothesis "
-             "(names and order unconditionally on types/defaults; types, prose and scalar defaults with the zero-value "
-             "normalisation under guard_C02_ast; unbounded in the number of parameters) + differential correspondence of the "
-             "EmitAst and ParseAst models + round-trip oracle on the real emitter/parser classified by finding_class_C02")
+TECHNIQUE = ("Coq proof of the AST-level codec parse_class d (emit_class ir) under the named docstring hypothesis doc_agrees ir d: "
+             "names/order/return presence for every IR of the domain whatever types and defaults are (C02_names_order); inside "
+             "guard_C02_ast the parser returns the closed form norm_C02 ir, same_interface_strict to zero_default_norm ir -- types "
+             "(TyExpr round trip), prose, defaults absent/None/int/float/bool/str with the zero-value normalisation, return entry "
+             "(C02_partial); unbounded in the number of parameters; ~ C02_ast_statement with one computed witness per AST-visible "
+             "finding class + differential correspondence of the EmitAst and ParseAst models + round-trip oracle on the real "
+             "emitter/parser classified by finding_class_C02 + audit of the theorem's guard on the real code")
 TRUSTED = [
     "modelled, not verified: ast.unparse followed by ast.parse is the identity on the emitted tree (hypothesis R1; the oracle "
     "runs the real unparse/parse on every point)",
-    "the docstring layer is decoupled: the theorem quantifies over the IR the ReST parser returns for the class docstring under "
-    "the named hypothesis doc_agrees (same names in the same order as the folded IR, same prose, no type, no default), which "
-    "is what C01's ReST theorem provides for emit_types off / emit_default_doc off; the textual :param -> :cvar -> :param "
-    "rewriting of emit.class_ / parse.class_ is covered by correspondence and by the oracle, not by the theorem",
-    "ast.parse on type strings is the TyExpr model (parse_ty / ty2expr); strings outside its fragment come from a recorded "
-    "parse table in correspondence and are excluded from the theorem by guard_C02_ast",
+    "the docstring layer is decoupled: the theorems quantify over the IR d the ReST parser returns for the class docstring under "
+    "the named hypothesis doc_agrees (the entries that have prose, return entry folded in as return_type, in order, with their "
+    "prose; returns None) -- what C01's ReST theorem provides for emit_types off; that doc_agrees follows from the DocEmit / "
+    "DocParse models for the class docstring (the :param -> :cvar -> :param rewriting, indent level 1, default sentences written "
+    "and removed) is NOT proved: it is covered by correspondence, by the oracle and by the docstring-level classes of "
+    "finding_class_C02",
+    "ast.parse on type strings is the TyExpr model (parse_ty / ty2expr); strings outside its canonical fragment, code-quoted "
+    "defaults and return defaults go through a recorded parse table in correspondence and are outside guard_C02_ast",
     "finding_class_C02 (the partition of the failures of the real code) is validated by the oracle on every run, not proved "
-    "complete: guard_C02_ast of the theorem is a sub-domain of guard_C02",
+    "complete; the proof found one failure it does not name (float default -0.0 comes back 0.0: theorem "
+    "C02_negative_zero_unclassified); guard_C02_ast covers about 86% of the generated points the classifier leaves unflagged",
 ]
+
+
+def _theorem_guard_audit(rng, n):
+    """points inside guard_C02_ast (the sub-domain of theorem C02_partial) that the classifier does not flag: the real round
+    trip must hold and the parsed-back description must be same_interface_strict to zero_default_norm of the input (the
+    relation the theorem proves).  Needs the family run_c02compose of model/C02Codec.v in the driver; skipped otherwise."""
+    from common import Sym, dumps, loads, run_model
+    import irwire
+    F = fam_parseast
+    pts = [F.gen_point(rng, "class") for _ in range(n)]
+    enc = [irwire.enc_ir(F._od(ir)) for ir, _, _ in pts]
+    g = run_model([dumps([Sym("c02_ast_check"), e, o["word_wrap"], False, o["word_wrap"]]) for e, (_, o, _) in zip(enc, pts)])
+    if any(r == "bad-request" for r in g[:1]):
+        return {"theorem-guard:family-not-in-driver": 1}, []
+    cls = run_model([dumps([Sym("c02_class"), o["emit_default_doc"], o["word_wrap"], e]) for e, (_, o, _) in zip(enc, pts)])
+    hist, failures, rel_reqs, rel_cases = {"theorem-guard:inside": 0, "theorem-guard:points": n}, [], [], []
+    for (ir, o, _), a, c in zip(pts, g, cls):
+        ga = loads(a)
+        if ga[0] != "true":
+            continue
+        hist["theorem-guard:inside"] += 1
+        if ga[2] != ["some", "true"]:
+            failures.append({"case": {"kind": "class", "ir": ir, "opts": o}, "class": None,
+                             "what": "model: guard_C02_ast holds but the composed model round trip does not (%r)" % (ga,)})
+        if loads(c) != "none":
+            continue        # a docstring-level finding class: outside the AST-level theorem
+        case = {"kind": "class", "ir": ir, "opts": o}
+        ok, what, out = F.round_trip("class", ir, o)
+        if not ok:
+            failures.append({"case": case, "what": "inside guard_C02_ast and unclassified, yet: " + what, "class": None})
+        elif out is not None:
+            rel_reqs.append(dumps([Sym("same_interface_norm_strict"), irwire.enc_ir(F._od(ir)), irwire.enc_ir(out)]))
+            rel_cases.append(case)
+    for case, r in zip(rel_cases, run_model(rel_reqs)):
+        if r != "true":
+            failures.append({"case": case, "class": None,
+                             "what": "inside guard_C02_ast: parsed-back description is not same_interface_strict to the "
+                                     "zero-normalised input (%s)" % r})
+    hist["theorem-guard:strict-relation-checked"] = len(rel_cases)
+    return hist, failures
 
 
 def oracle(rng, tier):
     n = 3000 if tier == "quick" else 40000
-    return fam_parseast.oracle_class(rng, n)
+    res = fam_parseast.oracle_class(rng, n)
+    hist, failures = _theorem_guard_audit(rng, 600 if tier == "quick" else 8000)
+    res["histogram"].update(hist)
+    res["failures"] += failures
+    res["evaluations"] += hist.get("theorem-guard:points", 0)
+    res["rule"] += (" | audit of the theorem's guard: points inside guard_C02_ast that finding_class_C02 does not flag must round-trip on "
+                    "the real code and be same_interface_strict to the zero-normalised input")
+    return res
 
 
 def check_case(case):
